@@ -304,7 +304,8 @@ def check_branch_family(chk, it, tabs, tier='quick'):
                     try:
                         tpl = one(chk, run_script(it, script(*items), stack, labels=labels), '%s-family' % kind)
                     except emit.ScriptMismatch as e:
-                        raise AnalysisBroken('branch family: %s' % e)
+                        emit.decide_mismatch(chk, 'R03.4', '%s-family:decoders' % kind, e, 'branch-carry/' + kind, 'branch family: ')
+                        continue
                     if tpl is None:
                         continue
                     n += 1
